@@ -17,3 +17,13 @@ Print Assumptions C07_lo_fits.
 Theorem C07_rebuild : forall v : Z, (relocate_hi v * 4096 + relocate_lo v) mod 2^32 = v mod 2^32.
 Proof. exact hi_lo_rebuild. Qed.
 Print Assumptions C07_rebuild.
+
+(* ---- tie of expression evaluation to the source (Gen/Guards.v: the return expressions of Offset / Position / Hi / Lo .eval, translated;
+   the position and environment resolve_immediates evaluates with, the second half of an auipc / lui pair at the position of the first) *)
+From BB Require Gen.Guards Proofs.Guards.
+Theorem C07_eval_from_source : Proofs.Guards.eval_from_source_stmt.
+Proof. exact Proofs.Guards.eval_from_source. Qed.
+Print Assumptions C07_eval_from_source.
+Theorem C07_resolve_immediates_from_source : Proofs.Guards.resolve_immediates_from_source_stmt.
+Proof. exact Proofs.Guards.resolve_immediates_from_source. Qed.
+Print Assumptions C07_resolve_immediates_from_source.
